@@ -101,6 +101,32 @@ def check(c: Check):
     clause_g(c)
     clause_h(c, traces, sk)
     clause_i(c)
+    clause_e_full(c)
+
+
+def clause_e_full(c: Check):
+    """a failing step is never turned into a success (and keeps its kind) by the status translation"""
+    ix, fo = c.ix, c.fo
+    FRm = 'exactly_lib.execution.full_execution.result'
+    f = ix.func(FRm + ':translate_status')
+    tcs = fo.enum_members(ix.cls('exactly_lib.test_case.test_case_status:TestCaseStatus'))
+    efs = fo.enum_members(ix.cls('exactly_lib.execution.result:ExecutionFailureStatus'))
+    pn = [p.arg for p in f.positional_params()]
+    n = 0
+    for sname, sm in sorted(tcs.items()):
+        if sname == 'SKIP':
+            continue
+        for oname, om in sorted(efs.items()):
+            outs = set()
+            for p in util.func_paths(ix, fo, f, Hooks(), args={pn[0]: K(sm), pn[1]: K(om)}):
+                outs.add(p.val.v.name if p.kind == 'return' and isinstance(p.val, K)
+                                         and isinstance(p.val.v, EnumMember) else '?')
+            n += 1
+            allowed = {oname} if oname != 'FAIL' else {'FAIL', 'XFAIL'}
+            c.expect(outs <= allowed and outs, 'C01-e', 'translate_status/%s/%s' % (sname, oname),
+                     'a step failure of kind %s under status %s is reported as %s' % (oname, sname, sorted(outs)),
+                     f.loc())
+    c.floor('C01-e', 'status x failure kind', n, 10)
 
 
 # ---------------------------------------------------------------- a
@@ -316,11 +342,11 @@ def clause_f(c: Check):
             i = labs.index('fail')
             ok_halt = len(labs) == i + 1
             ret = p.val if p.kind == 'return' else None
-            built = util.origin_call_key(ret)
-            is_failure = built is not None and built.endswith(':Failure')
+            con = util.constructed(ix, ret)
+            is_failure = con is not None and con[0].endswith(':Failure')
             from_this = False
-            if isinstance(ret, Sym) and ret.origin and ret.origin[0] == 'call':
-                for a in list(ret.origin[2]) + list(ret.origin[3].values()):
+            if con is not None:
+                for a in con[3].values():
                     base, chain = util.attr_chain(a)
                     if isinstance(base, Sym) and getattr(util.root_sym(base), 'label', None) == 'fail':
                         from_this = True
@@ -344,7 +370,7 @@ def clause_f(c: Check):
             c.expect(p.kind == 'return' and isinstance(p.val, K) and p.val.v is None, 'C01-f', 'execute_phase/none',
                      'no failure but execute_phase returns %s' % util.describe(p.val), ep.loc())
         elif lab == ['failure']:
-            k = util.origin_call_key(p.val) if p.kind == 'return' else None
+            k = util.constructed_class(ix, p.val) if p.kind == 'return' else None
             c.expect(k is not None and k.endswith(':PhaseStepFailure'), 'C01-f', 'execute_phase/failure',
                      'a failure is not returned as PhaseStepFailure (%s)' % util.describe(p.val), ep.loc())
         else:
@@ -522,16 +548,9 @@ def clause_g(c: Check):
 
 
 def _status_arg(c: Check, v, cls_name: str):
-    if isinstance(v, K) and isinstance(v.v, Record) and v.v.cls.name == cls_name:
-        st = c.fo.record_attr(v.v, 'status')
-        return None if is_unknown(st) else K(st)
-    if isinstance(v, Sym) and v.origin and v.origin[0] == 'call' and v.origin[1].endswith(':' + cls_name):
-        args = v.origin[2]
-        kw = v.origin[3]
-        if 'status' in kw:
-            return kw['status']
-        if args:
-            return args[0]
+    con = util.constructed(c.ix, v)
+    if con is not None and con[0].endswith(':' + cls_name):
+        return con[3].get('status')
     return None
 
 
